@@ -454,6 +454,11 @@ func TestC04(t *testing.T) {
 			}
 		}
 	}
+	for _, driver := range vlib.Drivers() {
+		driver := driver
+		parallelCases(vlib.Scale(8, 160), 4, func(i int) { c04CallerGone(ev, driver, i) })
+		parallelCases(vlib.Scale(12, 240), 2, func(i int) { c04SameIdentityContention(ev, driver, i) })
+	}
 	c04ManyIdentities(ev, vlib.DriverMemory)
 	finish(t, ev)
 }
